@@ -248,6 +248,7 @@ func executeEnum(tr *Trace) (*core.Result, error) {
 		seen[v.Signature()] = true
 	}
 	points := 0
+	var variantDigests []byte
 	ord := 0
 	for si := range base.Steps {
 		if base.Steps[si].Op != "commit" {
@@ -270,6 +271,7 @@ func executeEnum(tr *Trace) (*core.Result, error) {
 				return nil, err
 			}
 			points++
+			variantDigests = append(variantDigests, r.Digest...)
 			total.Stats.Merge(r.Stats)
 			for _, v := range r.Violations {
 				if os.Getenv("VERIF_DEBUG") != "" {
@@ -284,7 +286,7 @@ func executeEnum(tr *Trace) (*core.Result, error) {
 	}
 	total.Stats.C("crash_points_enumerated", int64(points))
 	total.NonTrivial = points > 0
-	total.Digest = core.Digest([]byte(total.Digest), []byte(fmt.Sprint(points)))
+	total.Digest = core.Digest([]byte(total.Digest), []byte(fmt.Sprint(points)), variantDigests)
 	return total, nil
 }
 
